@@ -22,9 +22,10 @@ def main():
     prop, src, name = sys.argv[1], sys.argv[2], sys.argv[3]
     dst = os.path.join(ROOT, "seeded", name)
     os.makedirs(dst, exist_ok=True)
-    for f in os.listdir(src):
-        if os.path.isfile(os.path.join(src, f)):
-            shutil.copy(os.path.join(src, f), os.path.join(dst, f))
+    if os.path.realpath(src) != os.path.realpath(dst):
+        for f in os.listdir(src):
+            if os.path.isfile(os.path.join(src, f)):
+                shutil.copy(os.path.join(src, f), os.path.join(dst, f))
     meta = json.load(open(os.path.join(dst, "meta.json")))
     if not os.path.isdir(WT):
         sh(["git", "-C", "/repo", "worktree", "add", "-q", "--detach", WT, "HEAD"])
@@ -47,6 +48,9 @@ def main():
         if os.path.isdir(os.path.join(WT, cand)) and any(f.endswith(".go") for f in os.listdir(os.path.join(WT, cand))):
             pkgdir = cand
             break
+    head = demo_src[:1500].lower()
+    if re.search(r"(repo(sitory)? root|root package|package ct\b|to the root)", head) or re.search(r"^package ct(_test)?\s*$", demo_src, flags=re.M):
+        pkgdir = "."
     if pkgdir is None:
         pkgdir = touched[0] if touched else "."
     pkgname = re.search(r"^package\s+(\w+)", demo_src, flags=re.M)
@@ -57,7 +61,7 @@ def main():
 
     def run_demo():
         shutil.copy(demo, demo_dst)
-        rc, out = sh(["go", "test", "-count=1", "-vet=off", "-run", runpat, "./" + pkgdir + "/"], cwd=WT)
+        rc, out = sh(["go", "test", "-count=1", "-vet=off", "-run", runpat, "." if pkgdir == "." else "./" + pkgdir + "/"], cwd=WT)
         os.remove(demo_dst)
         return rc, out[-1500:]
 
